@@ -287,6 +287,33 @@ def gen(seed, tier):
             steps.append(s)
         steps.append({'op': 'commit'} if rng.random() < 0.8 else {'op': 'abandon'})
     scn = {'prop': ID, 'ktype': ktype, 'ktypes': ktypes, 'vtype': vtype, 'keys': keys, 'chain0': chain0, 'chain0_b': chain0_b, 'same_session': same_session, 'steps': steps}
+    rng_rel = rng_for(seed, 1515)  # a separate stream: the scenarios of earlier versions keep their seeds
+    if not wide and rng_rel.random() < 0.05:
+        # a notebook that follows a relative block through several transactions on the existing big_maps
+        same_session, two_nets = True, False
+        chain0_b = {}
+        scn['same_session'], scn['chain0_b'] = True, chain0_b
+        scn['steps'] = steps = [st for st in steps if st['op'] != 'switch']
+        for st in steps:
+            if st['op'] == 'begin':
+                st.pop('static', None)
+                if rng_rel.random() < 0.7:
+                    st['src'] = 'chain'
+                    for extra in ('lit', 'dup_slots'):
+                        st.pop(extra, None)
+            elif st['op'] == 'abandon' and rng_rel.random() < 0.7:
+                st['op'] = 'commit'
+        for _ in range(rng_rel.choice([0, 1, 2, 3])):
+            # further short transactions on the same few keys: what one writes, a later one reads once the relative block has caught up
+            steps.append({'op': 'begin', 'src': 'chain', 'bm': rng_rel.choice(['1000', '1000', '1001'])})
+            for _ in range(rng_rel.randint(1, 4)):
+                steps.append({'op': rng_rel.choice(['get', 'get', 'mem', 'upd_some', 'gau_some', 'upd_none']), 'k': rng_rel.randrange(len(keys)), 'v': newval('r')})
+            steps.append({'op': 'commit'})
+        scn['rel_block'] = rng_rel.choice([1, 1, 2])
+    elif same_session and not two_nets and not any(st.get('static') for st in steps) and rng_rel.random() < 0.5:
+        # the notebook's context follows a *relative* block (head~r): "the on-chain contents" are those of the block the id designates
+        # when the value is read, so every transaction starts from the state r blocks behind the (moving) head
+        scn['rel_block'] = rng_rel.choice([1, 1, 2])
     if rng.random() < 0.25:
         # a young chain: the existing big_maps have small ids, in the range of the placeholder ids the interpreter hands out itself
         a, b = rng.choice([('0', '1'), ('1', '2'), ('2', '0'), ('3', '1'), ('1', '0')])
@@ -382,6 +409,14 @@ def execute(scn, want_log=False):
     node.big_maps = nets['A']['big_maps']
     node.bake(1)  # the head block's context holds the initial big_maps
     model = nets['A']['model']
+    rel = int(scn.get('rel_block') or 0)
+    model_hist = {node.head['level']: json.loads(json.dumps(model))}  # level -> the model of that block's context (keys become strings)
+
+    def pinned_level():
+        return max(0, node.head['level'] - rel)
+
+    def pinned_model(bm):
+        return {int(k): v for k, v in (model_hist.get(pinned_level(), {}).get(str(bm)) or {}).items()}
     next_id = [2000]
     def routed(req):
         # two networks behind one transport: requests are answered from the store of the network they were addressed to
@@ -484,6 +519,9 @@ def execute(scn, want_log=False):
                     bump('long_lived_session_reused')
                 else:
                     interp = Interpreter()
+                    if rel:
+                        interp.context.block_id = f'head~{rel}'
+                        bump('context_follows_relative_block')
                     if scn.get('same_session'):
                         shared['interp'] = interp
                         step_state['first'] = tr.attempts
@@ -505,7 +543,9 @@ def execute(scn, want_log=False):
                 if src in ('chain', 'prev', 'param'):
                     bm = int(st['bm']) if src != 'prev' else last_committed[0]
                     sess['base_id'] = bm
-                    sess['base'] = dict(model.get(bm, {}))
+                    sess['base'] = pinned_model(bm) if rel else dict(model.get(bm, {}))
+                    if rel and sess['base'] != dict(model.get(bm, {})):
+                        bump('relative_block_differs_from_head')
                     lit = str(bm)
                     if src == 'prev':
                         bump('second_txn_reads_first_txn_writes')
@@ -695,16 +735,27 @@ def execute(scn, want_log=False):
                     bm_ktype[target] = sess['ktype']
                 # the node applies the diff to its durable store
                 store = node.big_maps.setdefault(target, {})
+                pinned_store = None
+                head_model = None
+                if rel and sess['base_id'] is not None:
+                    # the statement's "on-chain contents" are those of the designated block: the diff is judged on a copy of them,
+                    # while the chain itself applies it to its head
+                    pblk = node.blocks[pinned_level()]
+                    pinned_store = dict(((pblk['ctx'].get('big_maps') or {}).get(str(target))) or {})
+                    head_model = dict(model.get(target, {}))
                 seen_hashes = set()
                 dup_hash = False
                 for u in updates:
                     if u['key_hash'] in seen_hashes:
                         dup_hash = True
                     seen_hashes.add(u['key_hash'])
-                    if 'value' in u and u['value'] is not None:
-                        store[u['key_hash']] = u['value']
-                    else:
-                        store.pop(u['key_hash'], None)
+                    for stx in (store, pinned_store):
+                        if stx is None:
+                            continue
+                        if 'value' in u and u['value'] is not None:
+                            stx[u['key_hash']] = u['value']
+                        else:
+                            stx.pop(u['key_hash'], None)
                 # the model's final dictionary
                 final = dict(sess['base'])
                 for ki, ov in sess['overlay'].items():
@@ -713,7 +764,21 @@ def execute(scn, want_log=False):
                     else:
                         final[ki] = ov
                 model[target] = final
+                head_store = store
+                if pinned_store is not None:
+                    # the model of the head follows the emitted diff (it is judged against the pinned contents below)
+                    for u in updates:
+                        if u['key_hash'] not in H:
+                            continue
+                        kj = H.index(u['key_hash'])
+                        if 'value' in u and u['value'] is not None:
+                            head_model[kj] = final.get(kj, 'x0')
+                        else:
+                            head_model.pop(kj, None)
+                    model[target] = head_model
+                    store = pinned_store
                 node.bake(1)  # the transaction is included: a new head whose context holds the updated big_map
+                model_hist[node.head['level']] = json.loads(json.dumps(model))
                 want = {H[ki]: val_micheline(vtype, v) for ki, v in final.items()}
                 if any(v == REMOVED for v in sess['overlay'].values()):
                     bump('commit_with_removals')
@@ -741,7 +806,8 @@ def execute(scn, want_log=False):
                             chain_before={str(k): v for k, v in sess['base'].items()})
                     # keep the node authoritative for the next transaction (the model follows the store)
                     back = {json.dumps(val_micheline(vtype, tok), sort_keys=True): tok for tok in list(final.values()) + list(sess['base'].values()) + [o for o in sess['overlay'].values() if o != REMOVED]}
-                    model[target] = {H.index(h): back.get(json.dumps(v, sort_keys=True), 'E0' if v == [] else 'x0') for h, v in store.items() if h in H}
+                    model[target] = {H.index(h): back.get(json.dumps(v, sort_keys=True), 'E0' if v == [] else 'x0') for h, v in head_store.items() if h in H}
+                    model_hist[node.head['level']] = json.loads(json.dumps(model))
                 last_committed[0] = target
                 sess = None
                 continue
